@@ -115,7 +115,10 @@ def vectors(m: Message) -> List[Any]:
     for j in range(n):
         vec = []
         for lf, b in zip(lvs, bases):
-            x = b[j] if j < len(b) else 0
+            # elements of one array are staggered through the basis (element k holds basis value j+k), so that rows and
+            # neighbours never hold the same value at the same time: a value landing in the wrong element is visible
+            shift = sum(p for p in lf.path if isinstance(p, int))
+            x = b[(j + shift) % len(b)] if j < len(b) else 0
             vec.append(bool(x) if lf.kind == "bool" else x)
         out.append(S.build_value(m, vec))
     # one more vector with the pads all ones around zero fields, and fields all ones around zero pads
